@@ -254,10 +254,11 @@ func vc02CheckMsg(req *dns.Msg, obs vc02ref.Observed, o vc02ref.Outcome, mode vc
 
 func TestVerifC02Verdict(t *testing.T) {
 	st := vstat.New("C02", "composite.verdict",
-		"rapid: rule AST -> text for custom / shared(0-3, ordered) / service / dangerous / adult / safe-search x2 / newly-registered slots, real composite.Filter vs reference evaluator on 3 questions and 1 upstream answer per configuration; non-trivial = at least two slots have a rule or entry matching the question (or an answer record matches a rule), distinct by (configuration text, question)",
+		"rapid: rule AST -> text for custom / shared(0-3, ordered) / service / dangerous / adult / safe-search x2 / newly-registered slots, real composite.Filter vs reference evaluator on 4 questions (each mostly a near miss of the previous one: only the type / one label / the requester's constructor / nothing changed) and 1 upstream answer per configuration; non-trivial = at least two slots have a rule or entry matching the question (or an answer record matches a rule), distinct by (configuration text, question)",
 		"req-rewrite-custom", "req-rewrite-shared", "req-rewrite-beats-allow", "req-allow-custom-stops-safety", "req-allow-shared-then-safety",
 		"req-allow-beats-block", "req-blocked", "req-blocked-hosts-only", "req-safety-second-or-later", "req-svc-rewrite-ignored",
-		"resp-blocked", "resp-allowed", "slots>=3", "meta-allow-added", "meta-rewrite-moved")
+		"resp-blocked", "resp-allowed", "slots>=3", "meta-allow-added", "meta-rewrite-moved",
+		"repeated-question", "repeated-question-other-requester-modified-response", "change-qtype", "change-host", "edge-host-root-or-tld")
 	st.Finish(t)
 
 	dir := t.TempDir()
@@ -290,17 +291,57 @@ func TestVerifC02Verdict(t *testing.T) {
 			qt   uint16
 		}
 
+		// A second requester's constructor: the same filter serves requesters
+		// with different blocking modes and TTLs.
+		mode1, ttl1, msgs1 := mode, ttl, msgs
+		mode2 := vc02ref.DrawMode(t, "mode2")
+		ttl2 := uint32(rapid.SampledFrom([]int{0, 1, 10, 60, 3600}).Draw(t, "ttl2"))
+		msgs2, err := dnsmsg.NewConstructor(&dnsmsg.ConstructorConfig{
+			Cloner:              agdtest.NewCloner(),
+			BlockingMode:        vc02DNSMode(mode2),
+			StructuredErrors:    agdtest.NewSDEConfig(ede),
+			FilteredResponseTTL: time.Duration(ttl2) * time.Second,
+			EDEEnabled:          ede,
+		})
+		if err != nil {
+			t.Fatalf("harness: constructor: %v", err)
+		}
+
+		// Every question after the first is mostly a near miss of the previous
+		// one: only the type, only one label, only the requester, or nothing
+		// changed.
 		seen := map[vq]bool{}
-		for i := 0; i < 3; i++ {
-			q := vq{host: focus, qt: rapid.SampledFrom(vc02ref.QTypes).Draw(t, "qt")}
-			if i > 0 && rapid.IntRange(0, 2).Draw(t, "otherHost") == 0 {
-				q.host = rapid.SampledFrom(vc02ref.Hosts).Draw(t, "host")
+		var q vq
+		second := false
+		for i := 0; i < 4; i++ {
+			change := "fresh"
+			if i > 0 && rapid.IntRange(0, 9).Draw(t, "nearMiss") < 7 {
+				change = rapid.SampledFrom([]string{"qtype", "host", "requester", "requester", "nothing"}).Draw(t, "change")
 			}
 
-			if seen[q] {
-				continue
+			switch change {
+			case "fresh":
+				q = vq{host: focus, qt: rapid.SampledFrom(vc02ref.QTypes).Draw(t, "qt")}
+				switch k := rapid.IntRange(0, 15).Draw(t, "hostKind"); {
+				case i > 0 && k == 15:
+					q.host = rapid.SampledFrom(vc02ref.EdgeHosts).Draw(t, "edgeHost")
+				case i > 0 && k >= 11:
+					q.host = rapid.SampledFrom(vc02ref.Hosts).Draw(t, "host")
+				}
+			case "qtype":
+				q.qt = rapid.SampledFrom(vc02ref.QTypes).Draw(t, "qt")
+			case "host":
+				q.host = rapid.SampledFrom(vc02NearHosts(q.host)).Draw(t, "nearHost")
+			case "requester":
+				second = !second
 			}
 
+			mode, ttl, msgs = mode1, ttl1, msgs1
+			if second {
+				mode, ttl, msgs = mode2, ttl2, msgs2
+			}
+
+			repeat := seen[q]
 			seen[q] = true
 
 			req := vc02Req(t, msgs, q.host, q.qt)
@@ -330,6 +371,20 @@ func TestVerifC02Verdict(t *testing.T) {
 			}
 
 			classes := vc02Classes(c, q.host, q.qt, got)
+			if repeat {
+				classes = append(classes, "repeated-question")
+				if change == "requester" && obs.Msg != nil && (mode1.String() != mode2.String() || ttl1 != ttl2) {
+					classes = append(classes, "repeated-question-other-requester-modified-response")
+				}
+			}
+
+			if i > 0 {
+				classes = append(classes, "change-"+change)
+			}
+
+			if !strings.Contains(q.host, ".") {
+				classes = append(classes, "edge-host-root-or-tld")
+			}
 			slots := c.Slots(q.host, q.qt)
 			nt := ""
 			if slots >= 2 {
@@ -585,4 +640,30 @@ func vc02MoveRewrites(c *vc02ref.Config, id string) (c2 *vc02ref.Config) {
 	c2.Custom = cust
 
 	return c2
+}
+
+// vc02NearHosts returns the hosts that differ from host by one label step:
+// parent, children and siblings in the pool.
+func vc02NearHosts(host string) (near []string) {
+	parent := ""
+	if i := strings.IndexByte(host, '.'); i >= 0 {
+		parent = host[i+1:]
+	}
+
+	for _, h := range vc02ref.Hosts {
+		hp := ""
+		if i := strings.IndexByte(h, '.'); i >= 0 {
+			hp = h[i+1:]
+		}
+
+		if h != host && (h == parent || hp == host || hp == parent) {
+			near = append(near, h)
+		}
+	}
+
+	if len(near) == 0 {
+		near = vc02ref.Hosts
+	}
+
+	return near
 }
